@@ -1859,11 +1859,16 @@ class BaseBosonicState(BaseState):
         var = np.sum(weights * (cov_sq_trace + 2 * mean_cov_dots)) / (2 * self._hbar**2) - 0.25
         var += np.sum(weights * ((cov_trace + mean_dots) / (2 * self._hbar) - 0.5) ** 2)
         var -= mean**2
-        mean = np.real_if_close(mean)
-        var = np.real_if_close(var)
+        # the weights can be large and alternating in sign (e.g., approximate Fock states), so
+        # the rounding error of the sums is set by their size, not by the machine precision alone
+        size = np.sum(np.abs(weights)) * (1 + np.max(np.abs(cov_trace + mean_dots))) ** 2
+        tol = 1e3 * np.finfo(float).eps * max(1.0, size)
 
-        if mean.imag != 0 or var.imag != 0:
+        if np.abs(np.imag(mean)) > tol or np.abs(np.imag(var)) > tol:
             raise ValueError("Mean or variance of photon number is complex.")
+
+        mean = np.real(mean)
+        var = np.real(var)
 
         return mean, var
 
